@@ -258,7 +258,7 @@ class remove_opens:
 
     def ensures(result, branches, zero):
         def is_open(b):
-            return eq(b.element.I, 0) and eq(b.element.Y, 0)
+            return b.element.I == 0 and b.element.Y == 0       # exact, like the library (a tolerance would call 3 GOhm an open circuit)
         kept_touches_zero = exists(branches, lambda b: not is_open(b) and (b.node1 == zero or b.node2 == zero))
         any_kept = exists(branches, lambda b: not is_open(b))
         return {
